@@ -34,6 +34,25 @@ REWRITES = [
     ("src/callbacks/simplestats.rs", r"use std::collections::HashMap;", "use crate::verif_models::HashMap;", "hashmap"),
 ]
 
+# function-entry hooks (cfg(kani), scratch copy only): (file, regex of the fn signature up to `{`, inserted text, tag)
+HOOKS = [
+    ("src/blockchain/parser/blkfile.rs",
+     r"pub fn read_block\(&mut self, offset: u64, coin: &CoinType\) -> Result<Block> \{",
+     """
+        #[cfg(kani)]
+        if unsafe { crate::verif_models::hooks::RB_STUB_ON } {
+            self.open()?;
+            return Ok(crate::verif_models::hooks::marker_block(crate::verif_models::hooks::file_id(&self.path), offset as u64));
+        }""", "hook_read_block"),
+    ("src/blockchain/parser/chain.rs",
+     r"pub fn get_block\(&mut self, height: u64\) -> Result<Option<Block>> \{",
+     """
+        #[cfg(kani)]
+        if unsafe { crate::verif_models::hooks::GB_STUB_ON } {
+            return crate::verif_models::hooks::get_block_contract(height);
+        }""", "hook_get_block"),
+]
+
 ANNOT = re.compile(r"^\s*//@\s*(.*)$")
 
 def parse_harness_file(path):
@@ -110,6 +129,24 @@ def build(dest, prop_id=None, files=None):
                 hfiles.append((hf, target))
         elif prop_id is None or any(prop_id in s["ids"] for s in specs):
             hfiles.append((hf, target))
+    # transitive `//# needs: a.rs b.rs` (helper constructors living in other harness files)
+    allh = {os.path.basename(h): h for h in all_harness_files()}
+    changed = True
+    while changed:
+        changed = False
+        have = {os.path.basename(h) for h, _ in hfiles}
+        for hf, _t in list(hfiles):
+            m = re.search(r"^//#\s*needs:\s*(.*)$", open(hf).read(), re.M)
+            if not m:
+                continue
+            for dep in m.group(1).split():
+                if dep not in have:
+                    if dep not in allh:
+                        raise OverlayError(f"{hf}: needs unknown harness file {dep}")
+                    t, _s = parse_harness_file(allh[dep])
+                    hfiles.append((allh[dep], t))
+                    have.add(dep)
+                    changed = True
     # helper files (prefixed _) are included into every harness module on demand via include!
     shutil.copytree(os.path.join(VERIF, "harness"), os.path.join(dest, "verif_harness"))
 
@@ -138,6 +175,33 @@ def build(dest, prop_id=None, files=None):
         s = s[:m.start()] + new + s[m.end():]
         open(p, "w").write(s)
         info["rewrites"].append(f"{rel}: `{m.group(2)}` -> `{repl}` (cfg(kani))")
+
+    # function-entry hooks
+    for rel, pat, text, tag in HOOKS:
+        p = os.path.join(dest, rel)
+        if not os.path.exists(p):
+            if tag in needed_tags:
+                raise OverlayError(f"anchor file missing: {rel}")
+            continue
+        s = open(p).read()
+        m = re.search(pat, s)
+        if not m:
+            if tag in needed_tags:
+                raise OverlayError(f"anchor signature not found in {rel}: {pat}")
+            continue
+        s = s[:m.end()] + text + s[m.end():]
+        open(p, "w").write(s)
+        info["rewrites"].append(f"{rel}: cfg(kani) entry hook `{tag}` (inert unless a harness enables it)")
+
+    # shadow `format!` in the file-producing callbacks (see verif_models::fmtm)
+    for rel in ("src/callbacks/csvdump.rs", "src/callbacks/unspentcsvdump.rs", "src/callbacks/balances.rs",
+                "src/blockchain/parser/chain.rs", "src/blockchain/proto/block.rs"):
+        p = os.path.join(dest, rel)
+        if os.path.exists(p):
+            s = open(p).read()
+            s = "#[cfg(kani)]\nmacro_rules! format { ($($t:tt)*) => { crate::verif_models::fmtm::format(format_args!($($t)*)) } }\n" + s
+            open(p, "w").write(s)
+            info["rewrites"].append(f"{rel}: cfg(kani) `format!` routed through verif_models::fmtm::format (real formatting unless a harness selects constant rows)")
 
     # models module
     shutil.copy(os.path.join(VERIF, "models", "verif_models.rs"), os.path.join(dest, "src", "verif_models.rs"))
